@@ -1,5 +1,6 @@
 import G3D.Proofs.PolyPoly
 import G3D.Props.C04
+import G3D.Proofs.BodySoundSets
 /-! # C03 — ConvexPolygon / ConvexPolyhedron × ConvexPolygon / ConvexPolyhedron  (partial)
     Proved: polygon × polygon whenever the carrier planes differ (crossing or parallel) — the result
     denotes exactly the common points of the two hulls.  The coplanar case (kernel K2), polygon ×
@@ -18,4 +19,14 @@ theorem inter_polygon_polygon_noncoplanar_total (a b : Polygon) (ha : a.Valid) (
     (hne : a.plane.eqv b.plane = false) : ∀ e, inter (.polygon a) (.polygon b) ≠ .error e := by
   obtain ⟨o, ho, _⟩ := inter_polygon_polygon_noncoplanar_exact a b ha hb hne
   intro e h; rw [ho] at h; cases h
+
+/-! ### soundness of every polygon / polyhedron pair (incl. the coplanar polygon case) -/
+/-- result ⊆ a ∩ b for polygon × polygon, polygon × polyhedron, polyhedron × polyhedron (both orders): every point of
+    the returned Point / Segment / ConvexPolygon / ConvexPolyhedron lies in both operands -/
+theorem inter_body_sound (a b : Obj) (ha : OpWF a) (hb : OpWF b) (o : Option Obj) (h : inter a b = .ok o) :
+    ∀ x, denOptB o x → OpDen a x ∧ OpDen b x := inter_result_subset a b ha hb o h
+
+theorem inter_polygon_polygon_sound (a b : Polygon) (ha : a.Valid) (hb : b.Valid) :
+    Sound (interPolygonPolygon a b) (InHull a.pts) (InHull b.pts) := interPolygonPolygon_sound a b ha hb
+
 end G3D.Props.C03
